@@ -376,7 +376,8 @@ void raw_vectors(unsigned part, unsigned nparts)
     if (!ok)
       vrt::fail("harness:raw_vector_contents", "raw_vector contents disagree with " + c17::show(e));
   }
-  c17::check_type<c17::NE | c17::LT | c17::REL | c17::LEX | c17::HASH>("raw_vector", "<int>", u, part, nparts, true,
+  // raw_vector's operator< is undocumented; the property only demands a strict weak order compatible with ==
+  c17::check_type<c17::NE | c17::LT | c17::REL | c17::LEX_INFO | c17::HASH>("raw_vector", "<int>", u, part, nparts, true,
                                                                       fcppt::range::hash<rv>{});
 }
 
